@@ -27,7 +27,26 @@ one() {
 export -f one; export tmpd
 mkdir -p /tmp/lab
 ls -d /verif/seeded/$pat/ | xargs -n1 basename | xargs -P $par -I{} bash -c 'one {}'
-{ echo "# Seeded changes versus the quick check of the targeted property (/repo HEAD $(git -C /repo log --format=%h -1), /verif HEAD $(git -C /verif log --format=%h -1), $(date -u +%F))"; echo;
-  echo "exit 1 = the check reports a VIOLATION with the seed applied (caught); 0 = not caught."; echo;
-  echo "| seed | check | exit | first violation identities |"; echo "|---|---|---|---|"; cat $tmpd/*.row | sort; } > $out
+python3 - "$out" "$tmpd" "$(git -C /repo log --format=%h -1)" "$(git -C /verif log --format=%h -1)" "$(date -u +%F)" <<'PY'
+import sys,glob,re,os
+out,tmpd,repo,verif,day=sys.argv[1:6]
+rows={}
+if os.path.exists(out):                       # keep the rows of seeds that were not re-run (partial refresh with a pattern)
+    old=open(out).read()
+    m=re.search(r'/verif HEAD ([0-9a-f]+)',old); oldh=m.group(1) if m else '?'
+    for l in old.splitlines():
+        if l.startswith('| C'):
+            c=[x.strip() for x in re.split(r'(?<!\\)\|',l)[1:-1]]
+            if len(c)==4: c.append(oldh)
+            rows[c[0]]=c
+for f in glob.glob(tmpd+'/*.row'):
+    l=open(f).read().strip()
+    c=[x.strip() for x in re.split(r'(?<!\\)\|',l)[1:-1]]
+    c.append(verif); rows[c[0]]=c
+with open(out,'w') as w:
+    w.write(f"# Seeded changes versus the quick check of the targeted property (/repo HEAD {repo}, /verif HEAD {verif}, {day})\n\n")
+    w.write("exit 1 = the check reports a VIOLATION with the seed applied (caught); 0 = not caught. The last column is the /verif commit the row was produced with (tools/seed_matrix.sh refreshes the rows matching its pattern and keeps the others).\n\n")
+    w.write("| seed | check | exit | first violation identities | harness |\n|---|---|---|---|---|\n")
+    for k in sorted(rows): w.write("| "+" | ".join(rows[k])+" |\n")
+PY
 rm -rf $tmpd
